@@ -227,6 +227,7 @@ type c20Arg struct {
 	Per   int64  `json:"per"`
 	LC    string `json:"lc"`
 	Ord   string `json:"ord"` // order_by of a TxSearch
+	PP    string `json:"pp"`  // persona of the light client's primary after its first answer ("" | "break")
 }
 
 type c20Edit struct {
